@@ -410,12 +410,20 @@ fn run_steps(session: &Session, r: &Replica, want: &Want, tree: Option<Element<S
     // `restarting-`: a caller that parses every document into a fresh tree (same variable reused in a loop)
     let lazy = r.role.contains("lazy-");
     let restarting = r.role.contains("restarting-");
+    let probing = r.role.contains("probing-");
     for (k, st) in r.steps[from..to].iter().enumerate() {
         let last = from + k + 1 == r.steps.len();
         if restarting {
             tree = None;
         }
         let bytes = session.bytes_of(&st.input);
+        if probing {
+            // "validate, then merge": the caller first parses the document on its own (another tree, same thread)
+            let _ = catch_unwind(AssertUnwindSafe(|| {
+                let mut r = Reader::from_reader(&bytes[..]);
+                into_struct(&mut r).map(|t| t.to_serde_struct(&Options::quick_xml_de()))
+            }));
+        }
         // the client keeps its pre-operation clone: extend_struct consumes the tree
         let keep = tree.clone();
         let (d, stats, rlog) = deliver(tree.take(), &bytes, &st.plan, st.cfg);
@@ -528,11 +536,24 @@ fn run_one_replica(shared: &std::sync::Arc<Session>, i: usize, want: &Want) -> R
     Ok(ReplicaOut { steps, getrandom_calls: calls, env_read })
 }
 
+/// the nested library call a re-entrant byte source makes (see simreader::NESTED_CALL): a small document is
+/// parsed, extended and rendered; a panic in it propagates through `fill_buf` into the outer call
+fn nested_library_call() {
+    let mut r = Reader::from_str("<inc a=\"1\"><k>t</k><k/><m x=\"2\"/></inc>");
+    if let Ok(t) = into_struct(&mut r) {
+        let mut r2 = Reader::from_str("<inc b=\"1\"><m/><n/></inc>");
+        if let Ok(t) = extend_struct(&mut r2, t) {
+            let _ = t.to_serde_struct(&Options::quick_xml_de());
+        }
+    }
+}
+
 /// Run every replica of the session, each on a fresh thread with its own entropy. Replicas run one at a time,
 /// except where a replica's plan has a park point: that replica stops inside its reader at the chosen call, the
 /// next replica runs to completion meanwhile, then the parked one is released - a deterministic interleaving
 /// of two parses that are in flight in the same process.
 pub fn run_session(session: &Session, want: &Want) -> Result<Vec<ReplicaOut>, String> {
+    let _ = crate::simreader::NESTED_CALL.set(nested_library_call);
     let n = session.replicas.len();
     let mut outs: Vec<Option<ReplicaOut>> = (0..n).map(|_| None).collect();
     let shared = std::sync::Arc::new(session.clone());
